@@ -62,6 +62,10 @@ def related_pool(rng):
 def related_value(rng, width, pool):
     full = (1 << width) - 1
     v = rng.choice(pool)
+    if rng.random() < 0.25:
+        # what is left of the field's range behind / in front of a value of the pool (a start so that start + count ends exactly at
+        # the end of the address space)
+        v = (full + 1 - v) if rng.random() < 0.7 else (full - v)
     return v if 0 <= v <= full else v & full
 
 
@@ -119,7 +123,13 @@ def flag_products(names, limit=256, rng=None):
 
 
 def byte_string(rng, n, kind=None):
-    kind = kind or rng.choice(["zero", "ff", "asc", "rand", "rand", "text"])
+    kind = kind or rng.choice(["zero", "ff", "asc", "rand", "rand", "text", "hex", "digits"])
+    if kind in ("hex", "digits"):
+        # binary fields whose bytes all happen to be characters of one class (hex digits, decimal digits): a name, a serial number
+        alphabet = b"0123456789abcdefABCDEF" if kind == "hex" else b"0123456789"
+        if kind == "hex" and rng.random() < 0.5:
+            alphabet = b"0123456789abcdef"
+        return bytes(rng.choice(alphabet) for _ in range(n))
     if kind == "zero":
         return bytes(n)
     if kind == "ff":
